@@ -197,6 +197,46 @@ def eval_spawn_cases(slice_len):
     return out
 
 
+def lone_script_cases(slice_len):
+    """ONE script is scheduled (the unscheduled main script, or a spawned script after the main script has ended); it spawns a
+    child early and then keeps running for several slices without sleeping: the child must get its turn after at most one slice
+    of the parent (bounded slices also for a script that was alone when its slice began)"""
+    out = []
+    for who in ("main", "spawned"):
+        for tail in (slice_len - 1, slice_len + 1, 2 * slice_len + 10, 3 * slice_len + 40, 5 * slice_len):
+            for early in (0, 9, slice_len - 10):
+                for child in ("short", "long", "two"):
+                    pc, cc, dc = [0], [0], [0]
+
+                    def pcounter(pc=pc):
+                        pc[0] += 1
+                        return 10000 + pc[0]
+
+                    def ccounter(cc=cc):
+                        cc[0] += 1
+                        return 50000 + cc[0]
+
+                    def dcounter(dc=dc):
+                        dc[0] += 1
+                        return 60000 + dc[0]
+                    scripts = {"c1": fill(8 if child != "long" else slice_len + 30, True, ccounter)}
+                    body = compose(early, pcounter) + [("spawn", "c1")]
+                    if child == "two":
+                        scripts["c2"] = fill(5, True, dcounter)
+                        body += [("spawn", "c2")]
+                    body += compose(tail, pcounter)
+                    if who == "main":
+                        if not body or body[0][0] != "spawn":
+                            pass
+                        main = body
+                    else:
+                        scripts["p"] = body
+                        main = [("spawn", "p")]
+                    out.append({"main": main, "scripts": scripts,
+                                "desc": "lone %s script: %d instructions, spawn (%s), %d more instructions" % (who, early, child, tail)})
+    return out
+
+
 def never_logged(case, exp_marks):
     """markers of the generated scripts that the round-robin oracle never emits: statements behind a script's termination"""
     exp = set(exp_marks)
@@ -451,7 +491,17 @@ def gen_case(rng, slice_len, nscripts=None, with_monitor=None):
         scripts["mon"] = matoms
         main.append(("hspawn", "hm", "mon"))
         desc.append("monitor:%d" % len(matoms))
-    main.append(("pad",))
+    if rng.random() < 0.25:
+        mc = [0]
+
+        def mcounter(mc=mc):
+            mc[0] += 1
+            return 70000 + mc[0]
+        tail = rng.choice([slice_len - 30, slice_len + 10, 2 * slice_len + 10, 3 * slice_len + 1])
+        main += compose(tail, mcounter)
+        desc.append("main:+%d" % tail)
+    else:
+        main.append(("pad",))
     return {"main": main, "scripts": scripts, "desc": ";".join(desc)}
 
 
@@ -485,6 +535,7 @@ def main(replay=None):
     thorough = run.tier == "thorough"
     problems = run.prove()
     himpl, drv, consts = SC.build(thorough)
+    SC.consts_problem(run, consts, problems)
     slice_len = consts["slice_length"]
 
     cases = []   # (kind, case, tick)
@@ -506,6 +557,9 @@ def main(replay=None):
         # scripts spawned from inside an expression evaluated by the preprocessor at run time
         for case in eval_spawn_cases(slice_len):
             cases.append(("evalspawn", case, 100000))
+        # one script alone in the schedule spawns and keeps running: the child is served after one slice of the parent
+        for case in lone_script_cases(slice_len):
+            cases.append(("lone", case, 100000))
         # every event kind at every boundary position, single script + monitor
         for ev in ("finish", "sleep", "spawn", "termself"):
             for L in (slice_len - 1, slice_len, slice_len + 1, 2 * slice_len):
@@ -622,6 +676,7 @@ def main(replay=None):
                        "script polling scriptDone of all handles (with a sleep in between), the unscheduled main script; plus every "
                        "event kind x length x position at the slice boundary for one script, and a systematic family 'terminate itself, G instructions, "
                        "sleep' (early/late, adjacent, across the boundary, first and later slice, alone / with monitor / with a runnable neighbour), "
+                       "a single scheduled script (main or spawned) that spawns and keeps running for up to five slices, a main script that goes on for several slices after its spawns, "
                        "and scripts spawned from inside an expression the preprocessor evaluates at run time (preprocess__ \"__EVAL(h = 0 spawn {..})\" "
                        "from the main script and from a spawned script, one or two spawns, handle assigned in the expression or set by the script "
                        "itself; implementation against the oracle only, the model has no nested evaluation). "
